@@ -1004,10 +1004,10 @@ func c16Member(c *Ctx, e zooEnv, path string, rt reflect.Type, name string, row 
 			key, what = "c16:unexported-field-accepted", "unexported field accepted by the checker is not fetchable at run time"
 		case base.Kind() == reflect.Struct && !fieldFound && occ >= 2:
 			key, what = "c16:ambiguous-member-accepted", "member that Go finds ambiguous is accepted by the checker (depth-first search)"
+		case rt.Kind() == reflect.Ptr && rt.Elem().Kind() != reflect.Struct:
+			key, what = "c16:member-through-pointer-not-fetchable", "the checker dereferences every pointer level, fetch only one and only towards a struct: a member of a **struct or *map is accepted but not fetchable"
 		case base.Kind() == reflect.Map:
 			key, what = "c16:member-of-non-string-keyed-map-accepted", "member access on a map whose key type is not string is accepted"
-		case rt.Kind() == reflect.Ptr && rt.Elem().Kind() == reflect.Ptr:
-			key, what = "c16:member-of-pointer-to-pointer-accepted", "the checker dereferences every pointer level, fetch only one: member of a **struct is accepted but not fetchable"
 		}
 		c.R.Violate(Violation{What: what, Key: key, Input: in, Expect: "run succeeds with a value of type " + fmt.Sprint(rv.ty), Got: rv.rerr})
 	}
